@@ -289,6 +289,48 @@ func c03Check(c *rt.C, st *c03State, env *codecEnv, m *dynamicpb.Message, class 
 				expectReject(doc, "unknown-key", kind, pos, "unknown member zzNoSuchMember added to "+s.describe())
 			}
 		}
+		if s.body || s.kind == kOneof || s.kind == "exposed-oneof" {
+			// near-miss spellings of a member that is present: the proto field name, kebab case, another letter case.
+			// Only the documented JSON name is a member of the object; anything else is an unknown key.
+			kind := "object"
+			if !s.body {
+				kind = "oneof"
+			}
+			valid := map[string]bool{"!type": true}
+			if s.body {
+				fields, groups := w.memberTable(s.tm)
+				for k := range fields {
+					valid[k] = true
+				}
+				for k := range groups {
+					valid[k] = true
+				}
+			} else {
+				for _, a := range s.arms {
+					valid[a.JSON] = true
+				}
+			}
+			for mi := range s.val.Obj {
+				orig := s.val.Obj[mi].Key
+				if orig == "!type" || !valid[orig] {
+					continue
+				}
+				snake := lowerCamelToSnake(orig)
+				for vi, nm := range []string{snake, strings.ReplaceAll(snake, "_", "-"), upperFirst(orig), strings.ToUpper(snake), strings.ToLower(orig), orig + "_", "_" + orig} {
+					if nm == orig || valid[nm] {
+						continue
+					}
+					style := []string{"snake", "kebab", "upper-camel", "screaming", "lower", "trailing-underscore", "leading-underscore"}[vi]
+					if !st.want("fault|near-miss-key|"+style+"|"+kind+"|"+pos, rng) {
+						continue
+					}
+					s.val.Obj[mi].Key = nm
+					doc := renderTree(tree, "")
+					s.val.Obj[mi].Key = orig
+					expectReject(doc, "near-miss-key:"+style, kind, pos, fmt.Sprintf("member %s of %s spelled %s", orig, s.describe(), nm))
+				}
+			}
+		}
 		if s.kind == kOneof || s.kind == "exposed-oneof" {
 			var present *tField
 			for _, mm := range s.val.Obj {
